@@ -49,12 +49,12 @@ namespace cv = covfie::vector;
 ROUTES = ("direct", "conv", "pack", "pack_owning", "copy", "assign", "move")
 
 
-def construct(route, layer, pargs, cfg, tag):
+def construct(route, layer, pargs, cfg, tag, types=None):
     """C++ that declares `o`, an owning_data_t of layer<vprobe<pargs>>, built along one construction route from the
     configuration expression `cfg` (may mention B for the layer type) and the probe tag.  A layer's lookup contract is
     checked once per route: a member that only some constructors set (a cached flag, a derived bound) shows as a
     contract violation on the routes that forget it."""
-    pre = "using P = verif::vprobe<%s>; using B = %s<P>;\n" % (pargs, layer)
+    pre = "using P = verif::vprobe<%s>; using B = %s<P>;\n" % (pargs, layer) if types is None else types
     direct = "B::owning_data_t %%s(%s, P::owning_data_t(P::configuration_t{%s}));\n" % (cfg, tag)
     if route == "direct":
         return pre + direct % "o"
